@@ -82,6 +82,16 @@ type Behaviour struct {
 	// Isn: how the consumer numbers its invocations: "" = one counter for the whole behaviour; "session" = every session
 	// counts its own requests 1, 2, ... (TS 32.290)
 	Isn string `json:"isn"`
+	// Cfg: the operator's configuration in force while the behaviour runs (copied into every subscriber context at its
+	// creation): volume limits, quota validity time, threshold rate as Th/1024 (a dyadic rational, exact in float32)
+	Cfg *OpCfg `json:"cfg"`
+}
+
+type OpCfg struct {
+	Vl  int32 `json:"vl"`
+	Vlp int32 `json:"vlp"`
+	Qvt int32 `json:"qvt"`
+	Th  int32 `json:"th"`
 }
 
 type SeqDriver struct {
@@ -149,6 +159,12 @@ type sessInfo struct {
 func (d *SeqDriver) runOne(b *Behaviour) {
 	env := d.Env
 	env.ResetState(b.Lrsn0)
+	if b.Cfg == nil {
+		b.Cfg = &OpCfg{Th: 512}
+	}
+	oc := factory.ChfConfig.Configuration
+	oc.VolumeLimit, oc.VolumeLimitPDU, oc.QuotaValidityTime = b.Cfg.Vl, b.Cfg.Vlp, b.Cfg.Qvt
+	oc.VolumeThresholdRate = float32(b.Cfg.Th) / 1024
 	time.Local = time.UTC
 	tzNow := 0
 	for _, u := range b.Ues {
@@ -448,7 +464,15 @@ func httpRes(r HTTPResult) map[string]any {
 			var mui []any
 			for _, x := range arr {
 				m, _ := x.(map[string]any)
-				e := map[string]any{"rg": "0", "granted": int64(-1), "fui": false, "trig": []any{}}
+				e := map[string]any{"rg": "0", "granted": int64(-1), "fui": false, "trig": []any{}, "vt": int64(0), "thr": int64(0)}
+				if n, ok := m["validityTime"].(json.Number); ok {
+					v, _ := n.Int64()
+					e["vt"] = clamp31(v)
+				}
+				if n, ok := m["volumeQuotaThreshold"].(json.Number); ok {
+					v, _ := n.Int64()
+					e["thr"] = clamp31(v)
+				}
 				if n, ok := m["ratingGroup"].(json.Number); ok {
 					e["rg"] = n.String()
 				}
@@ -469,6 +493,15 @@ func httpRes(r HTTPResult) map[string]any {
 					for _, t := range ts {
 						tm, _ := t.(map[string]any)
 						tt, _ := tm["triggerType"].(string)
+						// a trigger other than "immediate report, no limit" is rendered with category and limit
+						cat, _ := tm["triggerCategory"].(string)
+						lim := int64(0)
+						if n, ok := tm["volumeLimit"].(json.Number); ok {
+							lim, _ = n.Int64()
+						}
+						if cat != "IMMEDIATE_REPORT" || lim != 0 {
+							tt = tt + ":" + cat + ":" + strconv.FormatInt(lim, 10)
+						}
 						tl = append(tl, tt)
 					}
 					e["trig"] = tl
@@ -506,6 +539,9 @@ func clamp31(v int64) int64 {
 func (d *SeqDriver) project(b *Behaviour) map[string]any {
 	self := chf_context.GetSelf()
 	st := map[string]any{"lrsn": clamp31(int64(self.LocalRecordSequenceNumber))}
+	oc := factory.ChfConfig.Configuration
+	st["cfg"] = map[string]any{"vl": oc.VolumeLimit, "vlp": oc.VolumeLimitPDU, "qvt": oc.QuotaValidityTime,
+		"th": clamp31(int64(oc.VolumeThresholdRate * 1024))}
 	acct := map[string]any{}
 	for _, a := range b.Accts {
 		q, c, ok := d.Env.GetAccount(d.supi(a.U), rgNum(a.Rg))
@@ -545,6 +581,8 @@ func (d *SeqDriver) project(b *Behaviour) map[string]any {
 		}
 		ues[u] = map[string]any{
 			"known": true, "rg": rgs, "notify": ue.NotifyUri, "recs": recs, "cdr": cdr,
+			"lim": map[string]any{"vl": ue.VolumeLimit, "vlp": ue.VolumeLimitPDU, "qvt": ue.QuotaValidityTime,
+				"th": clamp31(int64(ue.VolumeThresholdRate * 1024))},
 			"file": FileSummary("/tmp/" + d.supi(u) + ".cdr"),
 		}
 	}
